@@ -116,7 +116,7 @@ def model_line(case):
     lines = []
     if cid != 'pkg':
         lines.append(f'cfg.def\t{cid}\t{iu.cfg_wire(case["cfg"])}')
-    lines.append(f"iso.dumps\t{cid}\t{case['codec']}\t{case['hex']}\t{case['msg']}")
+    lines.append(f"iso.dumps\t{cid}\t{case['codec']}\t{case['hex']}\t{case.get('msg_model', case['msg'])}")
     # decode what the IMPLEMENTATION produced (a difference in the bytes is already visible on the previous line)
     try:
         data = iso8583.dumps(dict(iu.dict_unwire(case['msg'])), encoding=case['codec'], iso_config=cfg_of(case),
@@ -215,6 +215,48 @@ def explore(run, tier):
             c = mk(cfgB, codec, rng.randrange(2), mB, eB)
             c['before'] = {'cfg': cfgA, 'msg': iu.dict_wire(mA), 'how': how}
             cases.append(c)
+    # LARGE messages (k of the eleven 3-digit-prefixed elements at 999 / 990 characters: 5 KB to 11 KB) — a message is as
+    # long as its elements are; and text / binary values that END in a line feed or carriage return, as the LAST bytes of
+    # the message; and fixed-width text elements that hold nothing but blanks
+    lll = sorted(int(k) for k, fc in pkg.items() if fc['field_type'] == 'LLLVAR' and not fc.get('field_processor'))
+    iccs = [int(k) for k, fc in pkg.items() if fc.get('field_processor') == 'ICC']
+    for ci, codec in enumerate(codecs3):
+        for k in (3, 4, len(lll)):
+            for full in (999, 990):
+                m = {'MTI': '1240', 'DE2': '5' * 16}
+                for b in lll[:k]:
+                    m[f'DE{b}'] = iu.text(rng, codec, full)
+                for b in iccs:
+                    v = b''
+                    while len(v) + 102 <= full:
+                        v += b'\x9f\x10\x63' + bytes(rng.getrandbits(8) for _ in range(99))
+                    m[f'DE{b}'] = v
+                for pi, b in enumerate(int(k2) for k2, fc in pkg.items() if fc.get('field_processor') == 'PDS'):
+                    if k > 3:
+                        m[f'PDS{1000 + pi:04d}'] = iu.text(rng, codec, 985)
+                cases.append(mk('pkg', codec, (k + ci) % 2, m, dict(m)))
+        for tail in ('\n', '\r', '\r\n', '\n\n', ' \n'):
+            try:
+                tail.encode(codec)
+            except UnicodeError:
+                continue
+            for last in (72, 127):
+                m = {'MTI': '1240', 'DE2': '5' * 16, f'DE{last}': 'FREE TEXT' + tail}
+                cases.append(mk('pkg', codec, ci % 2, m, dict(m)))
+            m = {'MTI': '1240', 'DE41': 'TERM 01' + tail[-1]}                  # a fixed element that ends in it
+            cases.append(mk('pkg', codec, ci % 2, m, dict(m)))
+        for b in iccs:
+            for endb in (b'\x0a', b'\x0d', b'\x0d\x0a', b'\x25', b'\x15', b'\x85'):
+                m = {'MTI': '1240', 'DE2': '5' * 16, f'DE{b}': b'\x9f\x26\x08' + bytes(range(1, 9 - len(endb))) + endb}
+                cases.append(mk('pkg', codec, ci % 2, m, dict(m)))
+    for b in bits:
+        fc = pkg[str(b)]
+        if fc['field_type'] == 'FIXED' and not fc.get('field_python_type') and not fc.get('field_processor'):
+            for ci, codec in enumerate(codecs3):
+                blank = ' ' * fc['field_length']
+                for other in ({}, {'DE2': '5' * 16}, {'DE2': '5' * 16, 'DE127': 'tail'}):
+                    m = {'MTI': '1240', **other, f'DE{b}': blank}
+                    cases.append(mk('pkg', codec, (b + ci) % 2, m, dict(m)))
     # the merchant-name processor on different elements, with the packaged pattern / none / an empty one / a caller's own
     pat = pkg['43']['field_processor_config']
     for bit in (43, 61, 104):
